@@ -37,7 +37,8 @@ ASSUMPTIONS = [
     "default job completion order (C08 covers the others)",
 ]
 EXPECT_MIN_NONTRIVIAL = 30
-START = datetime(2021, 3, 30, 16, 0, 37)
+START0 = datetime(2021, 3, 30, 16, 0, 37)
+START = START0  # switched per item: some audits start on a fractional second
 
 
 def _network(st, estimation, history, physics, n_steps, save_steps=False):
@@ -115,6 +116,14 @@ def items(tier, seed):
             for pname, plan in (("single", [n]), ("split2", [2, n]), ("each_step", list(range(1, n + 1)))):
                 out.append(("audit", p, o, n, est, "none", pname, plan, False, 2))
     out.append(("audit", 60, 60, n, True, "maneuver", "single", [n], True, 2))
+    # start instants that are NOT whole seconds (timestamps carry microseconds; Julian dates must follow them)
+    for ms in (500, 250):
+        out.append(("audit", 60, 60, n, True, "none", "each_step", list(range(1, n + 1)), False, None, ms))
+        out.append(("audit", 60, 300, n, True, "agents", "split2", [2, n], False, None, ms))
+        out.append(("audit", 300, 60, n, False, "none", "single", [n], False, 2, ms))
+    # agents whose truth is IMPORTED from an ephemeris database (they take their epoch over from the imported record)
+    for mix in ("targets", "sensors", "both"):
+        out.append(("imported", mix, 4 if tier == "quick" else 8))
     crash_n = 3 if tier == "quick" else 5
     for est in (True, False):
         for hist in ("none", "agents"):
@@ -259,6 +268,15 @@ def _audit(res, sc, saves, case, item, truth_only):
 
 
 def _run_audit(res, item):
+    global START  # noqa: PLW0603
+    START = START0 + timedelta(milliseconds=item[10] if len(item) > 10 else 0)
+    try:
+        _run_audit_at(res, item)
+    finally:
+        START = START0
+
+
+def _run_audit_at(res, item):
     _, physics, output, n, est, hist, pname, plan, save_steps = item[:9]
     span_steps = item[9] if len(item) > 9 else None
     cfg = _config(physics, output, n, est, hist, save_steps, span_steps)
@@ -267,7 +285,8 @@ def _run_audit(res, item):
     # the initial save happened in the constructor: reconstruct its reference from the initial objects
     init = rec.snapshot()
     case = {"physics": physics, "output": output, "steps": n, "estimation": est, "history": hist, "plan": pname, "save_filter_steps": save_steps,
-            "configured_span_steps": span_steps if span_steps is not None else n + 1}
+            "configured_span_steps": span_steps if span_steps is not None else n + 1,
+            "start_fraction_ms": START.microsecond // 1000}
     err = None
     # initial snapshot must be taken at time 0: rebuild to be exact
     if float(sc.clock.time) != 0.0:
@@ -297,7 +316,7 @@ def _run_audit(res, item):
         err = f"{type(exc).__name__}: {exc}"
     finally:
         fakeray.DELIVERY_HOOK = None
-    nontriv = output != physics or len(plan) > 1 or hist != "none" or span_steps is not None
+    nontriv = output != physics or len(plan) > 1 or hist != "none" or span_steps is not None or START.microsecond != 0
     res.case("audit/run", case, err is None and calls == n, nontrivial=nontriv, signature="C09/run/error_or_step_count",
              observed={"error": err, "steps": calls}, expected={"steps": n}, item=item)
     saves = [init] + rec.saves
@@ -440,10 +459,62 @@ def _run_crash(res, item):
     res.traces += n_stmt + 1
 
 
+def _run_imported(res, item):
+    """Output rows of a run whose targets and/or sensors follow an importer database (built by a realtime run first)."""
+    import os  # noqa: PLC0415
+    import shutil  # noqa: PLC0415
+    import tempfile  # noqa: PLC0415
+
+    from verif.props import c19  # noqa: PLC0415
+
+    _, mix, n = item
+    tmp = tempfile.mkdtemp(prefix="verif_c09_")
+    try:
+        src, path = os.path.join(tmp, "source.sqlite3"), os.path.join(tmp, "imp.sqlite3")
+        c19._source_db(src, n)  # noqa: SLF001
+        c19._derive(src, path, list(c19.TARGETS + c19.SENSORS), None)  # noqa: SLF001
+        cfg = c19._importer_config(n, mix, truth_only=True)  # noqa: SLF001
+        case = {"imported": mix, "steps": n}
+        sc = scen.build(cfg, importer_db_path=f"sqlite:///{path}")
+        err = None
+        try:
+            sc.propagateTo(datetimeToJulianDate(c19.START + timedelta(seconds=n * c19.DT)))
+        except Exception as exc:  # noqa: BLE001
+            err = f"{type(exc).__name__}: {exc}"
+        res.case("imported/run", case, err is None, signature="C09/imported/run_error", observed=err, item=item)
+        with sc.database.engine.connect() as conn:
+            epochs = [float(r[0]) for r in _rows(conn, "SELECT julian_date FROM epochs ORDER BY julian_date")]
+            truth = _rows(conn, "SELECT agent_id, julian_date FROM truth_ephemerides")
+        run_epochs = epochs[: n + 1]
+        agents = sorted({int(r[0]) for r in truth})
+        for aid in agents:
+            got = sorted(float(r[1]) for r in truth if int(r[0]) == aid)
+            res.case("imported/one_truth_row_per_agent_and_epoch", {**case, "agent": aid}, got == run_epochs, nontrivial=True,
+                     key=f"{mix}|{aid}", signature="C09/imported/truth_rows_not_one_per_epoch",
+                     observed={"rows": len(got), "distinct_epochs": len(set(got)), "first": got[:2]},
+                     expected={"rows": len(run_epochs), "first": run_epochs[:2]}, item=item)
+        dangling = [r for r in truth if float(r[1]) not in set(epochs)]
+        res.case("imported/rows_refer_to_epochs", case, not dangling and len(agents) == 4, nontrivial=True, key=f"{mix}|fk",
+                 signature="C09/imported/fk/epoch_missing", observed={"dangling": len(dangling), "agents": agents}, item=item)
+        for eng in sc.tasking_engines.values():
+            if eng._importer_db is not None:  # noqa: SLF001
+                eng._importer_db.engine.dispose()  # noqa: SLF001
+        if sc._ephem_importer is not None:  # noqa: SLF001
+            sc._ephem_importer._importer_db.engine.dispose()  # noqa: SLF001
+        res.observe(canon.state_hash(canon.dump_db(sc.database)))
+        res.states += n + 1
+        res.transitions += n
+        res.traces += 1
+    finally:
+        shutil.rmtree(tmp, ignore_errors=True)
+
+
 def run_item(item):
     res = fw.Result()
     if item[0] == "audit":
         _run_audit(res, item)
+    elif item[0] == "imported":
+        _run_imported(res, item)
     else:
         _run_crash(res, item)
     return res
